@@ -373,25 +373,35 @@ impl World {
                 let after = self.versions(s).await;
                 let known: Vec<(u64, (Uid, u64))> = self.row_uid.iter().map(|(n, v)| (*n, *v)).collect();
                 let mut rows = BTreeMap::new();
-                if known.iter().any(|(_, (id, _))| before.contains_key(&b64(id)) && !after.contains_key(&b64(id))) {
+                if known.iter().any(|(_, (id, _))| match (before.get(&b64(id)), after.get(&b64(id))) {
+                    (Some(_), None) => true,
+                    (Some(b), Some(a)) => b.1 != a.1,
+                    _ => false,
+                }) {
                     // tombstones are applied before the rows of the same ingestion are written
                     self.sites[s].deleted_since_start = true;
                 }
                 for (n, (id, e)) in known {
                     if let Some(m) = after.get(&b64(&id)) {
                         rows.insert(n, (id, e));
+                        // a row whose slot changed was removed by a tombstone and fetched again: an ingested insert
+                        let reinserted = matches!(before.get(&b64(&id)), Some(m0) if m0.1 != m.1);
                         match before.get(&b64(&id)) {
-                            None => {
-                                self.sites[s].origin.insert(n, Origin::IngestedInsert);
-                                if self.sites[s].deleted_since_start {
-                                    self.sites[s].inserted_after_deletion.insert(n);
-                                }
-                            }
-                            Some(m0) if m0 != m => {
+                            Some(_) if !reinserted && before.get(&b64(&id)).map(|x| x.0) == Some(m.0) => {}
+                            Some(_) if !reinserted => {
                                 self.sites[s].origin.insert(n, Origin::IngestedUpdate);
                                 self.sites[s].had_ingested_update.insert(n);
                             }
-                            _ => {}
+                            _ => {
+                                self.sites[s].origin.insert(n, Origin::IngestedInsert);
+                                self.sites[s].had_ingested_update.remove(&n);
+                                if self.sites[s].deleted_since_start || reinserted {
+                                    self.sites[s].deleted_since_start = true;
+                                    self.sites[s].inserted_after_deletion.insert(n);
+                                } else {
+                                    self.sites[s].inserted_after_deletion.remove(&n);
+                                }
+                            }
                         }
                     } else {
                         if before.contains_key(&b64(&id)) {
@@ -460,21 +470,22 @@ impl World {
         }
     }
 
-    /// id -> mdate of every row of the room at a site
-    async fn versions(&self, s: usize) -> HashMap<String, i64> {
+    /// id -> (mdate, storage slot) of every row of the room at a site
+    async fn versions(&self, s: usize) -> HashMap<String, (i64, i64)> {
         self.sites[s]
             .inst
             .read(|conn| {
                 let mut res = HashMap::new();
-                let mut stmt = conn.prepare("SELECT id, mdate FROM _node WHERE room_id IS NOT NULL").unwrap();
+                let mut stmt = conn.prepare("SELECT id, mdate, rowid FROM _node WHERE room_id IS NOT NULL").unwrap();
                 let mut rows = stmt.query([]).unwrap();
                 while let Some(r) = rows.next().unwrap() {
                     let id: Vec<u8> = r.get(0).unwrap();
                     let m: i64 = r.get(1).unwrap();
+                    let slot: i64 = r.get(2).unwrap();
                     if id.len() == 16 {
                         let mut u = [0u8; 16];
                         u.copy_from_slice(&id);
-                        res.insert(b64(&u), m);
+                        res.insert(b64(&u), (m, slot));
                     }
                 }
                 res
